@@ -79,8 +79,10 @@ fn c09_oracle(text: &str, o: ParseObs, rendered: &mut HashSet<u64>, st: &mut Sta
         return None;
     }
     st.witness("rejected_text");
+    // an error without any location is not excluded by the property; only locations that are
+    // attached must be usable
     if o.spans.is_empty() {
-        return Some(("error without location".into(), "the parse error carries no location".into()));
+        st.witness("error_without_location");
     }
     for &(s, e) in &o.spans {
         if !(s <= e && e <= text.len()) {
